@@ -45,12 +45,15 @@ func (s logonState) FixMsgIn(session *session, msg *Message) (nextState sessionS
 			return shutdownWithReason(session, msg, false, err.Error())
 
 		case targetTooHigh:
-			var tooHighErr error
-			if nextState, tooHighErr = session.doTargetTooHigh(err); tooHighErr != nil {
+			resend, tooHighErr := session.doTargetTooHigh(err)
+			if tooHighErr != nil {
 				return shutdownWithReason(session, msg, false, tooHighErr.Error())
 			}
+			// The number of this Logon was not consumed: the recovery is complete only once the
+			// counterparty has filled it too. Ending it one short threw away the messages kept meanwhile.
+			resend.resendRangeEnd = err.ReceivedTarget
 
-			return
+			return resend
 
 		default:
 			return handleStateError(session, err)
